@@ -69,6 +69,10 @@ func init() {
 // coming from a paired REP socket.
 func (s *socket) SendMsg(m *protocol.Message) error {
 	s.Lock()
+	if s.closed {
+		s.Unlock()
+		return protocol.ErrClosed
+	}
 	bestEffort := s.bestEffort
 	timeQ := nilQ
 	if bestEffort {
